@@ -243,3 +243,42 @@ Definition run_shutdown (steps : list nat) (s : server) : server * bool :=
     let st := fold_left sd_step steps (mksd s 0 true None None false) in
     (sd_srv st, sd_done st)
   end.
+
+(* ------------------------------------------------------------------ *)
+(** * which HTTP/2 sessions a soft stop may close ([Mux::shutting_down], [Stream::is_quiesced]) *)
+
+(** one direction of a stream: the phase of its kawa parser (0 initial,
+    1 running, 2 completed, 3 terminated) and the bytes still held in its
+    storage toward the peer *)
+Record sdir := mkdir { ph : nat; held : nat }.
+
+Inductive sstate := SIdle | SLinked | SUnlinked | SRecycle.
+Record h2stream := mkstr { hstate : sstate; sfront : sdir; sback : sdir }.
+
+(** [Stream::is_quiesced], from the generated conjuncts *)
+Definition dir_ok (shape : list nat * bool) (d : sdir) : bool :=
+  existsb (Nat.eqb (ph d)) (fst shape) && (negb (snd shape) || (held d =? 0)).
+
+Definition is_quiesced (s : h2stream) : bool :=
+  if quiesced_both then dir_ok quiesced_front (sfront s) && dir_ok quiesced_back (sback s)
+  else dir_ok quiesced_front (sfront s) || dir_ok quiesced_back (sback s).
+
+(** the rule: a stream lets the soft stop close its session only if both
+    directions are over (never started, completed, or terminated) AND nothing
+    of it is still buffered toward either peer *)
+Definition phase_over (d : sdir) : bool := (ph d =? 0) || (ph d =? 2) || (ph d =? 3).
+Definition quiesced_spec (s : h2stream) : bool :=
+  phase_over (sfront s) && phase_over (sback s) && (held (sfront s) =? 0) && (held (sback s) =? 0).
+
+(** the scan of [Mux::shutting_down]: a stream linked to a backend keeps the
+    session, an unlinked one keeps it unless quiesced; a pending write on the
+    frontend keeps it too *)
+Definition stream_lets_stop (s : h2stream) : bool :=
+  match hstate s with
+  | SLinked => false
+  | SUnlinked => is_quiesced s
+  | _ => true
+  end.
+
+Definition mux_can_stop (ss : list h2stream) (pending_write : bool) : bool :=
+  forallb stream_lets_stop ss && negb pending_write.
